@@ -1,322 +1,434 @@
-"""Translator for C15: regenerates, from the working tree's source, the structural facts about the view lookup
-cache protocol that the theorems of Props/C15.lean rest on (`Pyr.Cache.Proto`):
+"""Translator for C15: regenerates, from the tree under test, the facts about the view lookup cache protocol that
+the theorems of Props/C15.lean rest on (`Pyr.Cache.Proto` and friends).
 
- * config/views.py  add_view.register : `self.registry._clear_view_lookup_cache()` is an unconditional top-level
-                    statement of `register` (clears), it is the LAST statement and every `register_view(...)`
-                    call precedes it, with no `return` in between (swapLast: modify BEFORE swap)
- * config/views.py  add_view.register_view : in the multiview branch (`else` of `if not want_multiview`) the
-                    `registerAdapter(multiview, …, IMultiView, …)` call precedes the `for view_type in (IView,
-                    ISecuredView): adapters.unregister(…)` loop (multiviewFirst: a concurrent lookup never finds the
-                    triad empty; commit 7ef5d71)
- * registry.py      Registry._clear_view_lookup_cache : the body is `self._view_lookup_cache = {}` — a NEW dict
-                    (freshDict), not an in-place `.clear()`; Registry.__init__ makes `_lock` a threading.Lock
- * config/__init__.py  the fallback `_clear_view_lookup_cache` closure also assigns a new dict
- * view.py          _find_views : `registry._view_lookup_cache` is read exactly once, into a local; the probe
-                    (`local.get(key)`) and the only write (`local[key] = views`) go through that local with the
-                    same key expression — a tuple of names, possibly bound to a local first — (singleRead); every
-                    input of the scan loop (the names it reads, locals resolved to what they were computed from)
-                    is a field of the key or `registry` (keyCoversScan: the key determines the scan);
-                    the write sits under `with registry._lock:` (writeUnderLock)
-                    and under `if views:` (cacheEmpty = false); the probe precedes the scan loop; the scan calls
-                    `registered(...)` inside the loop (live reads); the function returns the probed/filled local;
-                    the fields of the cache key.
-Anything that does not have the expected shape sets `recognised := false` (and names the problem), which makes
-the `decide`d obligation `source_protocol` in Props/C15.lean fail — never a guess.
+Robustness round: every fact that can be OBSERVED is now extracted by RUNNING the code of the tree under test
+(imported from `src_root`, which must be where `pyramid` comes from — otherwise nothing is recognised) on a finite
+probe domain, not by matching one source shape; it therefore survives behaviour-preserving refactorings (helpers,
+guard clauses, explicit loops instead of itertools.product, renamed locals) and changes under any edit that
+changes the behaviour probed.  Fail closed: any exception or unexpected observation sets `recognised := false`
+and emits the BAD value of the fact, so the `decide`d obligations of Props/C15.lean fail.
+
+PROBED (what is run, over which domain):
+ * `pyramid.view._find_views` against a recording fake registry (`.adapters.registered`, `._view_lookup_cache` as a
+   property that counts reads and hands out a NEW recording dict per read, `._lock` as a recording context manager)
+   and fake interfaces with `__sro__` of lengths 2 x 3, default and explicit view types, classifier default/explicit:
+     singleRead       one read of `registry._view_lookup_cache` per call (hit, miss, warm), and the probe (`get`) and
+                      the write (`__setitem__`) go to THAT dict with the same key
+     cacheEmpty       a lookup that finds nothing performs no dict write
+     writeUnderLock   the dict write happens while `registry._lock` is held (and the lock is released afterwards)
+     probeBeforeScan  event order: cache get, then the adapter lookups, then the write; a warm hit does no adapter lookup
+     scanInLoop       the adapter lookups are exactly the product request-SRO x context-SRO x view types, in that
+                      nesting order, each `registered((classifier, req, ctx), type, name=name)` — read live, one by one
+     returnsLocal     the list returned is the object written (miss) / the object cached (hit)
+     multiViewScannedLast   with the default view types the last type asked for each pair is IMultiView
+     keyFields / scanInputs / keyCoversScan   for each of the five inputs {view_classifier, view_types, request_iface,
+                      context_iface, view_name}: does changing it alone change the adapter lookups (scan input)? does a
+                      second lookup differing only in it avoid the first one's cache entry (key field)?
+ * `pyramid.registry.Registry` (a real instance): freshDict (`_clear_view_lookup_cache()` installs a NEW, empty, plain
+   dict object and leaves the old one untouched), lockIsLock; `Configurator._fix_registry` on a bare zope Components:
+   fallbackFreshDict
+ * a real `Configurator` with `adapters.register/unregister` and `_clear_view_lookup_cache` recorded, over the
+   registration kinds {first view, replacement, conversion to a multiview, addition to a multiview, exception view for
+   both classifiers, exception-only view, notfound view}, each committed on its own:
+     clears           every kind ends up calling the clear
+     swapLast         the LAST recorded event of every kind is the clear (modify before swap)
+     multiviewFirst   in the conversion `register(IMultiView)` precedes every `unregister(IView/ISecuredView)`
+     registerViewCalls   adapter mutations of the first registration
+STILL AST (cannot be observed by a finite probe, kept as a cross-check of singleRead): the number of textual loads of
+`._view_lookup_cache` in `_find_views` and in the module-level helpers it calls (followed two levels deep) is 1 and
+there is no store — accepts renamed locals, helpers, guard clauses, any loop form.
 """
-import ast, os
+import ast, os, sys, threading
 
 summary = {}
 
-
-def _find(tree, path):
-    """nested FunctionDef/ClassDef lookup by a list of names"""
-    node = tree
-    for name in path:
-        nxt = None
-        for n in ast.walk(node):
-            if n is not node and isinstance(n, (ast.FunctionDef, ast.ClassDef)) and n.name == name:
-                nxt = n
-                break
-        if nxt is None:
-            return None
-        node = nxt
-    return node
+INPUTS = ['view_classifier', 'view_types', 'request_iface', 'context_iface', 'view_name']
 
 
-def _walk_no_nested(nodes):
-    """walk statements without descending into nested function/class definitions"""
-    stack = list(nodes)
-    while stack:
-        n = stack.pop()
-        yield n
-        for c in ast.iter_child_nodes(n):
-            if isinstance(c, (ast.FunctionDef, ast.AsyncFunctionDef, ast.ClassDef, ast.Lambda)):
-                continue
-            stack.append(c)
+class _Iface:
+    def __init__(self, name, bases=()):
+        self.name = name
+        self.__sro__ = (self,) + tuple(bases)
+
+    def __repr__(self):
+        return 'I<%s>' % self.name
 
 
-def _is_clear_call(node):
-    return (isinstance(node, ast.Call) and isinstance(node.func, ast.Attribute)
-            and node.func.attr == '_clear_view_lookup_cache' and not node.args and not node.keywords)
+class _RecDict(dict):
+    def __init__(self, log, tag, init=None):
+        dict.__init__(self, init or {})
+        self.log, self.tag = log, tag
+
+    def get(self, k, d=None):
+        self.log.append(('get', self.tag, k))
+        return dict.get(self, k, d)
+
+    def __getitem__(self, k):
+        self.log.append(('get', self.tag, k))
+        return dict.__getitem__(self, k)
+
+    def __contains__(self, k):
+        self.log.append(('get', self.tag, k))
+        return dict.__contains__(self, k)
+
+    def __setitem__(self, k, v):
+        self.log.append(('set', self.tag, k, v))
+        dict.__setitem__(self, k, v)
+
+    def setdefault(self, k, d=None):
+        self.log.append(('get', self.tag, k))
+        if not dict.__contains__(self, k):
+            self.log.append(('set', self.tag, k, d))
+        return dict.setdefault(self, k, d)
 
 
-def _parents(root):
-    par = {}
-    for n in ast.walk(root):
-        for c in ast.iter_child_nodes(n):
-            par[c] = n
-    return par
+class _RecLock:
+    def __init__(self, log):
+        self.log, self.held = log, 0
+
+    def acquire(self, *a, **k):
+        self.held += 1
+        self.log.append(('lock',))
+        return True
+
+    def release(self):
+        self.held -= 1
+        self.log.append(('unlock',))
+
+    def __enter__(self):
+        self.acquire()
+        return self
+
+    def __exit__(self, *a):
+        self.release()
+        return False
+
+
+class _Adapters:
+    def __init__(self, log, table):
+        self.log, self.table = log, table
+
+    def registered(self, required, provided, name=''):
+        self.log.append(('reg', tuple(required), provided, name))
+        return self.table.get((tuple(required), provided, name))
+
+
+class _FakeRegistry:
+    """what `_find_views` touches.  Every read of `_view_lookup_cache` is counted and returns a NEW recording dict
+    object (tagged by its number within the call): the first one of a call carries what the first one of the previous
+    call ended with, so a warm call hits; a second read within a call is visible as tag 1"""
+
+    def __init__(self, table):
+        self.log = []
+        self.adapters = _Adapters(self.log, table)
+        self._lock = _RecLock(self.log)
+        self.reads = 0
+        self.in_call = []
+        self.persist = {}
+
+    @property
+    def _view_lookup_cache(self):
+        self.reads += 1
+        d = _RecDict(self.log, len(self.in_call), self.persist if not self.in_call else None)
+        self.in_call.append(d)
+        return d
+
+    def begin(self):
+        del self.log[:]
+        self.reads = 0
+        self.in_call = []
+
+    def end(self):
+        if self.in_call:
+            self.persist = dict(self.in_call[0])
+
+
+def _probe_find_views(out, P):
+    import pyramid.view as pv
+    from pyramid.interfaces import IView, ISecuredView, IMultiView, IViewClassifier, IExceptionViewClassifier
+    fv = pv._find_views
+    R1 = _Iface('R1')
+    R2 = _Iface('R2', (R1,))
+    C1 = _Iface('C1')
+    C2 = _Iface('C2', (C1,))
+    C3 = _Iface('C3', (C2, C1))
+    X1 = _Iface('X1')                    # alternative request / context interfaces for the key probe
+    Y1 = _Iface('Y1')
+    default_types = (IView, ISecuredView, IMultiView)
+    alt_types = (IView, IMultiView)
+
+    def table_for(cl, name, marks):
+        return {((cl, r, c), t, name): 'v:%s' % m for (r, c, t, m) in marks}
+
+    base = dict(view_classifier=IViewClassifier, view_types=default_types, request_iface=R2, context_iface=C3, view_name='n')
+
+    def call(reg, args, explicit=True):
+        reg.begin()
+        kw = {}
+        if explicit:
+            kw = dict(view_types=args['view_types'], view_classifier=args['view_classifier'])
+        try:
+            return fv(reg, args['request_iface'], args['context_iface'], args['view_name'], **kw)
+        finally:
+            reg.end()
+
+    def expected_scan(args):
+        return [('reg', (args['view_classifier'], r, c), t, args['view_name'])
+                for r in args['request_iface'].__sro__ for c in args['context_iface'].__sro__ for t in args['view_types']]
+
+    ok = dict(singleRead=True, cacheEmpty=False, writeUnderLock=True, probeBeforeScan=True, scanInLoop=True,
+              returnsLocal=True, multiViewScannedLast=True)
+
+    # ---- a hitting lookup (cold), explicit and default arguments, then warm --------------------------------
+    for explicit in (True, False):
+        table = {((IViewClassifier, R1, C2), IView, 'n'): 'v:a', ((IViewClassifier, R2, C1), IMultiView, 'n'): 'v:b',
+                 ((IViewClassifier, R1, C1), ISecuredView, 'n'): 'v:c'}
+        reg = _FakeRegistry(table)
+        res = call(reg, base, explicit)
+        log = list(reg.log)
+        scans = [e for e in log if e[0] == 'reg']
+        gets = [e for e in log if e[0] == 'get']
+        sets = [e for e in log if e[0] == 'set']
+        if scans != expected_scan(base):
+            ok['scanInLoop'] = False
+        if not explicit and (not scans or len(scans) % 3 or any(scans[i + 2][2] is not IMultiView for i in range(0, len(scans), 3))
+                             or any(e[2] is IMultiView for i, e in enumerate(scans) if i % 3 != 2)):
+            ok['multiViewScannedLast'] = False
+        if res != ['v:b', 'v:a', 'v:c']:
+            ok['scanInLoop'] = False
+        if reg.reads != 1 or len(gets) != 1 or len(sets) != 1 or gets[0][1] != 0 or sets[0][1] != 0 or gets[0][2] != sets[0][2]:
+            ok['singleRead'] = False
+        if sets:
+            i_set = log.index(sets[0])
+            if not (log[:i_set].count(('lock',)) - log[:i_set].count(('unlock',)) == 1 and reg._lock.held == 0):
+                ok['writeUnderLock'] = False
+            if not (gets and log.index(gets[0]) < log.index(scans[0]) and log.index(scans[-1]) < i_set):
+                ok['probeBeforeScan'] = False
+            if sets[0][3] is not res:
+                ok['returnsLocal'] = False
+        else:
+            ok['writeUnderLock'] = ok['probeBeforeScan'] = ok['returnsLocal'] = False
+        # warm: the same call again is answered from the cache
+        res2 = call(reg, base, explicit)
+        log2 = list(reg.log)
+        if [e for e in log2 if e[0] == 'reg'] or [e for e in log2 if e[0] == 'set']:
+            ok['probeBeforeScan'] = False
+        if reg.reads != 1 or len([e for e in log2 if e[0] == 'get']) != 1:
+            ok['singleRead'] = False
+        if res2 != res or res2 is not reg.persist.get(sets[0][2] if sets else None):
+            ok['returnsLocal'] = False
+
+    # ---- a missing lookup writes nothing ----------------------------------------------------------------------
+    reg = _FakeRegistry({})
+    res = call(reg, base)
+    if [e for e in reg.log if e[0] == 'set'] or reg.persist:
+        ok['cacheEmpty'] = True
+    if reg.reads != 1:
+        ok['singleRead'] = False
+    if res != [] or [e for e in reg.log if e[0] == 'reg'] != expected_scan(base):
+        ok['scanInLoop'] = False
+    res = call(reg, base)                               # and again: still a full scan, still nothing written
+    if [e for e in reg.log if e[0] == 'set'] or reg.persist:
+        ok['cacheEmpty'] = True
+    if [e for e in reg.log if e[0] == 'reg'] != expected_scan(base):
+        ok['scanInLoop'] = False
+
+    # ---- which inputs does the scan depend on, which does the key distinguish ---------------------------------
+    alts = dict(view_classifier=IExceptionViewClassifier, view_types=alt_types, request_iface=X1, context_iface=Y1, view_name='m')
+    scan_inputs, key_fields = [], []
+    for inp in INPUTS:
+        other = dict(base)
+        other[inp] = alts[inp]
+        # registrations that make the two lookups differ whatever the input is: one only the first lookup scans
+        # (an ISecuredView slot of its own triad), one the second lookup scans first
+        table = {((base['view_classifier'], R2, C3), ISecuredView, 'n'): 'v:one',
+                 ((other['view_classifier'], other['request_iface'], other['context_iface']), IView, other['view_name']): 'v:two'}
+        reg = _FakeRegistry(table)
+        cold_other = call(_FakeRegistry(table), other)
+        first = call(reg, base)
+        scan_first = [e for e in reg.log if e[0] == 'reg']
+        second = call(reg, other)
+        scan_second = [e for e in reg.log if e[0] == 'reg']
+        if scan_second == [] and second == first:
+            depends = expected_scan(base) != expected_scan(other)        # answered from the first one's entry
+            distinguished = False
+        else:
+            depends = scan_first != scan_second
+            distinguished = second == cold_other and second != first
+        if depends:
+            scan_inputs.append(inp)
+        if distinguished:
+            key_fields.append(inp)
+    out.update(ok)
+    out['scanInputs'] = sorted(scan_inputs + ['registry'])
+    out['keyFields'] = key_fields
+    out['keyCoversScan'] = bool(scan_inputs) and set(scan_inputs) <= set(key_fields)
+    if sorted(scan_inputs) != sorted(INPUTS):
+        P.append('the scan does not depend on all five inputs: %r' % (scan_inputs,))
+
+
+def _probe_registry(out, P):
+    from pyramid.registry import Registry
+    r = Registry('c15probe')
+    d0 = r._view_lookup_cache
+    d0['k'] = ['v']
+    r._clear_view_lookup_cache()
+    d1 = r._view_lookup_cache
+    out['freshDict'] = (d1 is not d0 and type(d1) is dict and d1 == {} and d0 == {'k': ['v']})
+    r._clear_view_lookup_cache()
+    if r._view_lookup_cache is d1 or r._view_lookup_cache is d0:
+        out['freshDict'] = False
+    out['lockIsLock'] = type(r._lock) is type(threading.Lock())
+    # the fallback for registries that are not pyramid Registries
+    from zope.interface.registry import Components
+    from pyramid.config import Configurator
+    comp = Components('c15probe')
+    cfg = Configurator(registry=comp, autocommit=True)
+    cfg.setup_registry()
+    ok = hasattr(comp, '_clear_view_lookup_cache') and hasattr(comp, '_lock')
+    if ok:
+        comp._clear_view_lookup_cache()
+        e0 = comp._view_lookup_cache
+        e0['k'] = 1
+        comp._clear_view_lookup_cache()
+        ok = comp._view_lookup_cache is not e0 and comp._view_lookup_cache == {} and e0 == {'k': 1}
+    out['fallbackFreshDict'] = bool(ok)
+
+
+def _probe_registrations(out, P):
+    from pyramid.config import Configurator
+    from pyramid.interfaces import IView, ISecuredView, IMultiView
+    config = Configurator()
+    config.commit()
+    reg = config.registry
+    events = []
+    ad = reg.adapters
+    o_reg, o_unreg, o_clear = ad.register, ad.unregister, reg._clear_view_lookup_cache
+
+    def w_reg(required, provided, name, value):
+        events.append(('unregister' if value is None else 'register', provided))
+        return o_reg(required, provided, name, value)
+
+    def w_unreg(required, provided, name, value=None):
+        events.append(('unregister', provided))
+        return o_unreg(required, provided, name, value)
+
+    def w_clear():
+        events.append(('clear', None))
+        return o_clear()
+
+    ad.register, ad.unregister, reg._clear_view_lookup_cache = w_reg, w_unreg, w_clear
+
+    def view(n):
+        def v(context, request):
+            return n
+        return v
+
+    class E1(Exception):
+        pass
+
+    class E2(Exception):
+        pass
+
+    kinds = [('first', lambda: config.add_view(view(1), name='p')),
+             ('replacement', lambda: config.add_view(view(2), name='p')),
+             ('conversion', lambda: config.add_view(view(3), name='p', request_param='a')),
+             ('addition', lambda: config.add_view(view(4), name='p', request_param='b')),
+             ('exception-both', lambda: config.add_view(view(5), context=E1)),
+             ('exception-only', lambda: config.add_exception_view(view(6), context=E2)),
+             ('notfound', lambda: config.add_notfound_view(view(7)))]
+    clears, last, first_mutations, mvfirst = True, True, 0, None
+    for kind, do in kinds:
+        del events[:]
+        do()
+        config.commit()
+        ev = list(events)
+        muts = [e for e in ev if e[0] != 'clear']
+        if not muts:
+            P.append('registration kind %s performs no adapter mutation' % kind)
+        if not any(e[0] == 'clear' for e in ev):
+            clears = False
+        if not ev or ev[-1][0] != 'clear':
+            last = False
+        if kind == 'first':
+            first_mutations = len(muts)
+        if kind == 'conversion':
+            regs = [i for i, e in enumerate(ev) if e == ('register', IMultiView)]
+            unregs = [i for i, e in enumerate(ev) if e[0] == 'unregister' and e[1] in (IView, ISecuredView)]
+            if len(regs) != 1 or not unregs:
+                P.append('the conversion to a multiview does not register one IMultiView and unregister the single view')
+            else:
+                mvfirst = regs[0] < min(unregs)
+    out['clears'], out['swapLast'] = clears, clears and last
+    out['registerViewCalls'] = first_mutations
+    out['multiviewFirst'] = mvfirst
+
+
+def _ast_cache_loads(src_root, P):
+    """textual loads / stores of `._view_lookup_cache` in `_find_views` and the module-level helpers it calls"""
+    tree = ast.parse(open(os.path.join(src_root, 'pyramid', 'view.py')).read())
+    funcs = {n.name: n for n in tree.body if isinstance(n, ast.FunctionDef)}
+    if '_find_views' not in funcs:
+        P.append('_find_views not found')
+        return None
+    seen, todo = set(), [('_find_views', 0)]
+    loads = stores = 0
+    while todo:
+        name, depth = todo.pop()
+        if name in seen:
+            continue
+        seen.add(name)
+        for n in ast.walk(funcs[name]):
+            if isinstance(n, ast.Attribute) and n.attr == '_view_lookup_cache':
+                if isinstance(n.ctx, ast.Load):
+                    loads += 1
+                else:
+                    stores += 1
+            if isinstance(n, ast.Call) and isinstance(n.func, ast.Name) and n.func.id in funcs and depth < 2:
+                todo.append((n.func.id, depth + 1))
+    return loads == 1 and stores == 0
 
 
 def facts(src_root):
     out = {'problems': []}
     P = out['problems']
-    rd = lambda *p: open(os.path.join(src_root, 'pyramid', *p)).read()
-
-    # ---- add_view.register -------------------------------------------------------------------------------
-    vt = ast.parse(rd('config', 'views.py'))
-    reg = _find(vt, ['ViewsConfiguratorMixin', 'add_view', 'register'])
-    out['clears'] = out['swapLast'] = None
-    out['registerViewCalls'] = 0
-    if reg is None:
-        P.append('add_view.register not found')
-    else:
-        body = reg.body
-        top_clear = [i for i, st in enumerate(body) if isinstance(st, ast.Expr) and _is_clear_call(st.value)]
-        all_clear = [n for n in _walk_no_nested(body) if _is_clear_call(n)]
-        rv_idx = [i for i, st in enumerate(body) for n in _walk_no_nested([st])
-                  if isinstance(n, ast.Call) and isinstance(n.func, ast.Name) and n.func.id == 'register_view']
-        out['registerViewCalls'] = len(rv_idx)
-        returns = [n for n in _walk_no_nested(body) if isinstance(n, ast.Return)]
-        if not rv_idx:
-            P.append('no register_view(...) call in add_view.register')
-        if len(all_clear) == 0:
-            out['clears'], out['swapLast'] = False, False
-        elif len(all_clear) != len(top_clear) or len(top_clear) != 1:
-            P.append('the cache clear in add_view.register is conditional or repeated')
+    src_root = os.path.realpath(src_root)
+    if src_root not in [os.path.realpath(p) for p in sys.path[:3]]:
+        sys.path.insert(0, src_root)
+    defaults = dict(clears=None, swapLast=None, freshDict=None, singleRead=None, cacheEmpty=None, writeUnderLock=None,
+                    probeBeforeScan=None, scanInLoop=None, returnsLocal=None, keyCoversScan=None, multiviewFirst=None,
+                    multiViewScannedLast=None, fallbackFreshDict=None, lockIsLock=None, registerViewCalls=0,
+                    keyFields=['unknown'], scanInputs=['unknown'])
+    out.update(defaults)
+    try:
+        import pyramid
+        if not os.path.realpath(pyramid.__file__).startswith(src_root + os.sep):
+            P.append('pyramid is imported from %s, not from the tree under test' % os.path.dirname(pyramid.__file__))
         else:
-            out['clears'] = True
-            i = top_clear[0]
-            out['swapLast'] = bool(rv_idx) and all(j < i for j in rv_idx) and i == len(body) - 1 and not returns
-        # the adapter mutations happen inside register_view only through the registry
-        rvf = _find(vt, ['ViewsConfiguratorMixin', 'add_view', 'register_view'])
-        if rvf is None or any(_is_clear_call(n) for n in ast.walk(rvf)):
-            P.append('register_view missing or clears the cache itself')
-        # the multiview branch: register IMultiView first, then unregister IView / ISecuredView
-        out['multiviewFirst'] = None
-        if rvf is not None:
-            br = [n for n in ast.walk(rvf) if isinstance(n, ast.If) and ast.unparse(n.test) == 'not want_multiview' and n.orelse]
-            if len(br) != 1:
-                P.append('register_view: no `if not want_multiview: … else: …`')
-            else:
-                body = br[0].orelse
-                reg_i = [i for i, st in enumerate(body) if isinstance(st, ast.Expr) and isinstance(st.value, ast.Call)
-                         and isinstance(st.value.func, ast.Attribute) and st.value.func.attr == 'registerAdapter'
-                         and any(isinstance(a, ast.Name) and a.id == 'IMultiView' for a in st.value.args)]
-                unreg_i = [i for i, st in enumerate(body) if isinstance(st, ast.For)
-                           and any(isinstance(n, ast.Call) and isinstance(n.func, ast.Attribute) and n.func.attr == 'unregister'
-                                   for n in ast.walk(st))
-                           and ast.unparse(st.iter).replace(' ', '') == '(IView,ISecuredView)']
-                other_unreg = [n for i, st in enumerate(body) if i not in unreg_i for n in ast.walk(st)
-                               if isinstance(n, ast.Call) and isinstance(n.func, ast.Attribute) and n.func.attr in ('unregister', 'unregisterAdapter')]
-                if len(reg_i) != 1 or len(unreg_i) != 1 or other_unreg:
-                    P.append('register_view: the multiview branch does not have one registerAdapter(IMultiView) and one unregister loop')
-                else:
-                    out['multiviewFirst'] = reg_i[0] < unreg_i[0]
-
-    # ---- Registry._clear_view_lookup_cache -------------------------------------------------------------
-    def fresh_of(fn, owner):
-        """True: `<owner>._view_lookup_cache = {}`; False: in-place `.clear()`; None: unknown"""
-        if fn is None:
-            return None
-        body = [st for st in fn.body if not (isinstance(st, ast.Expr) and isinstance(st.value, ast.Constant))]
-        while len(body) == 1 and isinstance(body[0], ast.With):      # `with self._lock:` around it changes nothing here
-            body = body[0].body
-        if len(body) != 1:
-            return None
-        st = body[0]
-        if (isinstance(st, ast.Assign) and len(st.targets) == 1 and isinstance(st.targets[0], ast.Attribute)
-                and st.targets[0].attr == '_view_lookup_cache' and isinstance(st.targets[0].value, ast.Name)
-                and st.targets[0].value.id == owner):
-            v = st.value
-            if isinstance(v, ast.Dict) and not v.keys:
-                return True
-            if isinstance(v, ast.Call) and isinstance(v.func, ast.Name) and v.func.id == 'dict' and not v.args and not v.keywords:
-                return True
-            return None
-        if (isinstance(st, ast.Expr) and isinstance(st.value, ast.Call) and isinstance(st.value.func, ast.Attribute)
-                and st.value.func.attr == 'clear' and isinstance(st.value.func.value, ast.Attribute)
-                and st.value.func.value.attr == '_view_lookup_cache'):
-            return False
-        return None
-
-    rt = ast.parse(rd('registry.py'))
-    out['freshDict'] = fresh_of(_find(rt, ['Registry', '_clear_view_lookup_cache']), 'self')
-    if out['freshDict'] is None:
-        P.append('Registry._clear_view_lookup_cache has an unexpected body')
-    init = _find(rt, ['Registry', '__init__'])
-    lock_ok = clear_in_init = False
-    if init is not None:
-        for st in init.body:
-            if (isinstance(st, ast.Assign) and isinstance(st.targets[0], ast.Attribute) and st.targets[0].attr == '_lock'
-                    and ast.unparse(st.value) == 'threading.Lock()'):
-                lock_ok = True
-            if isinstance(st, ast.Expr) and _is_clear_call(st.value):
-                clear_in_init = True
-            if (isinstance(st, ast.Assign) and isinstance(st.targets[0], ast.Attribute) and st.targets[0].attr == '_view_lookup_cache'
-                    and isinstance(st.value, ast.Dict) and not st.value.keys):
-                clear_in_init = True
-    out['lockIsLock'] = lock_ok
-    out['cacheCreatedInInit'] = clear_in_init
-    if not lock_ok:
-        P.append('Registry.__init__ does not create self._lock = threading.Lock()')
-    if not clear_in_init:
-        P.append('Registry.__init__ does not create the cache')
-    ct = ast.parse(rd('config', '__init__.py'))
-    fb = [n for n in ast.walk(ct) if isinstance(n, ast.FunctionDef) and n.name == '_clear_view_lookup_cache']
-    out['fallbackFreshDict'] = (len(fb) == 1 and fresh_of(fb[0], '_registry') is True)
-    if not out['fallbackFreshDict']:
-        P.append('the fallback _clear_view_lookup_cache in config/__init__.py has an unexpected body')
-
-    # ---- _find_views ------------------------------------------------------------------------------------
-    wt = ast.parse(rd('view.py'))
-    fv = _find(wt, ['_find_views'])
-    for k in ('singleRead', 'cacheEmpty', 'writeUnderLock', 'probeBeforeScan', 'scanInLoop', 'returnsLocal', 'keyCoversScan'):
-        out[k] = None
-    out['keyFields'] = ['unknown']
-    out['scanInputs'] = ['unknown']
-    if fv is None:
-        P.append('_find_views not found')
-    else:
-        par = _parents(fv)
-        loads = [n for n in ast.walk(fv) if isinstance(n, ast.Attribute) and n.attr == '_view_lookup_cache' and isinstance(n.ctx, ast.Load)]
-        stores = [n for n in ast.walk(fv) if isinstance(n, ast.Attribute) and n.attr == '_view_lookup_cache' and not isinstance(n.ctx, ast.Load)]
-        if stores:
-            P.append('_find_views assigns registry._view_lookup_cache')
-        # the local holding the reference
-        local = None
-        for n in loads:
-            p = par.get(n)
-            if isinstance(p, ast.Assign) and p.value is n and len(p.targets) == 1 and isinstance(p.targets[0], ast.Name):
-                local = p.targets[0].id
-        sub_stores = [n for n in ast.walk(fv) if isinstance(n, ast.Subscript) and isinstance(n.ctx, ast.Store)
-                      and ((isinstance(n.value, ast.Name) and n.value.id == local)
-                           or (isinstance(n.value, ast.Attribute) and n.value.attr == '_view_lookup_cache'))]
-        probes = [n for n in ast.walk(fv) if isinstance(n, ast.Call) and isinstance(n.func, ast.Attribute) and n.func.attr == 'get'
-                  and ((isinstance(n.func.value, ast.Name) and n.func.value.id == local)
-                       or (isinstance(n.func.value, ast.Attribute) and n.func.value.attr == '_view_lookup_cache'))]
-        rebind = [n for n in ast.walk(fv) if isinstance(n, ast.Name) and n.id == local and isinstance(n.ctx, ast.Store)]
-        if len(sub_stores) != 1 or len(probes) != 1 or len(probes[0].args) != 1:
-            P.append('_find_views: expected exactly one cache probe and one cache write')
-        else:
-            w, pr = sub_stores[0], probes[0]
-            wa = par.get(w)
-            out['singleRead'] = (len(loads) == 1 and local is not None and len(rebind) == 1
-                                 and isinstance(w.value, ast.Name) and isinstance(pr.func.value, ast.Name))
-            def resolve_key(e):
-                """a key given as a local name is resolved to its single assignment"""
-                if isinstance(e, ast.Name):
-                    asg = [n for n in ast.walk(fv) if isinstance(n, ast.Assign) and len(n.targets) == 1
-                           and isinstance(n.targets[0], ast.Name) and n.targets[0].id == e.id]
-                    if len(asg) == 1:
-                        return asg[0].value
-                return e
-            key_w, key_p = resolve_key(w.slice), resolve_key(pr.args[0])
-            if ast.dump(key_w) != ast.dump(key_p):
-                P.append('_find_views: probe key and write key differ')
-            if isinstance(key_p, ast.Tuple) and all(isinstance(e, ast.Name) for e in key_p.elts):
-                out['keyFields'] = [e.id for e in key_p.elts]
-            else:
-                P.append('_find_views: cache key is not a tuple of names')
-            # what is written / probed into
-            pa = par.get(pr)
-            resvar = pa.targets[0].id if isinstance(pa, ast.Assign) and len(pa.targets) == 1 and isinstance(pa.targets[0], ast.Name) else None
-            if not (isinstance(wa, ast.Assign) and isinstance(wa.value, ast.Name) and wa.value.id == resvar and resvar):
-                P.append('_find_views: the value written is not the result variable')
-            # enclosing statements of the write
-            chain, n = [], wa
-            while n is not None and n is not fv:
-                n = par.get(n)
-                chain.append(n)
-            out['writeUnderLock'] = any(isinstance(c, ast.With) and any(isinstance(i.context_expr, ast.Attribute) and i.context_expr.attr == '_lock'
-                                                                         for i in c.items) for c in chain)
-            guarded = [c for c in chain if isinstance(c, ast.If) and isinstance(c.test, ast.Name) and c.test.id == resvar]
-            out['cacheEmpty'] = not guarded
-            # the scan: a for loop calling `registered`-ish inside, after the probe, before the write; the miss test
-            loops = [n for n in ast.walk(fv) if isinstance(n, ast.For)]
-            regname = None
-            for st in fv.body:
-                if (isinstance(st, ast.Assign) and isinstance(st.value, ast.Attribute) and st.value.attr == 'registered'
-                        and isinstance(st.targets[0], ast.Name)):
-                    regname = st.targets[0].id
-            calls = [n for n in ast.walk(fv) if isinstance(n, ast.Call) and isinstance(n.func, ast.Name) and n.func.id == regname]
-            in_loop = bool(calls) and all(any(isinstance(a, ast.For) for a in _anc(par, c, fv)) for c in calls)
-            out['scanInLoop'] = in_loop and bool(loops)
-            # inputs of the scan: names read in the outermost scan loop, minus names bound inside it and the
-            # result variable; a local computed before the loop is replaced by the names it was computed from;
-            # module-level names (itertools, interfaces) are constants
-            params = {a.arg for a in fv.args.args + fv.args.kwonlyargs}
-            outer = [l for l in loops if not any(isinstance(a, ast.For) for a in _anc(par, l, fv))]
-            inputs = set()
-            if len(outer) == 1:
-                lp = outer[0]
-                bound = {n.id for n in ast.walk(lp) if isinstance(n, ast.Name) and isinstance(n.ctx, ast.Store)}
-                reads = {n.id for n in ast.walk(lp) if isinstance(n, ast.Name) and isinstance(n.ctx, ast.Load)} - bound - {resvar}
-                local_defs = {}
-                for st in ast.walk(fv):
-                    if (isinstance(st, ast.Assign) and len(st.targets) == 1 and isinstance(st.targets[0], ast.Name)
-                            and not any(a is lp for a in _anc(par, st, fv))):
-                        local_defs.setdefault(st.targets[0].id, []).append(st.value)
-                todo, seen = list(reads), set()
-                while todo:
-                    nm = todo.pop()
-                    if nm in seen:
-                        continue
-                    seen.add(nm)
-                    if nm in params:
-                        inputs.add(nm)
-                    elif nm in local_defs:
-                        for v in local_defs[nm]:
-                            todo += [x.id for x in ast.walk(v) if isinstance(x, ast.Name)]
-                    # else: module-level constant
-                out['scanInputs'] = sorted(inputs)
-                out['keyCoversScan'] = inputs <= set(out['keyFields']) | {'registry'}
-            else:
-                P.append('_find_views: expected one outermost scan loop')
-            out['probeBeforeScan'] = bool(loops) and pr.lineno < min(l.lineno for l in loops) and all(l.lineno < w.lineno for l in loops)
-            miss_if = [c for c in chain if isinstance(c, ast.If) and ast.unparse(c.test) == '%s is None' % resvar]
-            if not miss_if:
-                P.append('_find_views: the scan/write is not under `if <result> is None`')
-            last = fv.body[-1]
-            out['returnsLocal'] = isinstance(last, ast.Return) and isinstance(last.value, ast.Name) and last.value.id == resvar
-            for k in ('writeUnderLock', 'probeBeforeScan', 'scanInLoop', 'returnsLocal'):
-                if not out[k]:
-                    P.append('_find_views: %s does not hold' % k)
-    # the default view types scanned for a triad: IMultiView last (so the single view is read before the multiview)
-    out['multiViewScannedLast'] = None
-    if fv is not None:
-        dv = [n for n in ast.walk(fv) if isinstance(n, ast.Assign) and len(n.targets) == 1 and isinstance(n.targets[0], ast.Name)
-              and n.targets[0].id == 'view_types' and isinstance(n.value, ast.Tuple)]
-        if len(dv) == 1 and all(isinstance(e, ast.Name) for e in dv[0].value.elts) and dv[0].value.elts:
-            names = [e.id for e in dv[0].value.elts]
-            out['multiViewScannedLast'] = names[-1] == 'IMultiView' and names.count('IMultiView') == 1
-        else:
-            P.append('_find_views: default view_types is not a tuple of names')
-    out.setdefault('multiviewFirst', None)
-    for k in ('clears', 'swapLast', 'freshDict', 'singleRead', 'cacheEmpty', 'multiviewFirst', 'multiViewScannedLast'):
+            for probe in (_probe_find_views, _probe_registry, _probe_registrations):
+                try:
+                    probe(out, P)
+                except Exception as e:                      # fail closed
+                    P.append('%s failed: %s: %s' % (probe.__name__, type(e).__name__, str(e)[:120]))
+    except Exception as e:
+        P.append('cannot import the tree under test: %s' % e)
+    try:
+        a = _ast_cache_loads(src_root, P)
+        out['astSingleLoad'] = a
+        if a is not True:
+            out['singleRead'] = False if out['singleRead'] is not None else None
+    except Exception as e:
+        P.append('ast cross-check failed: %s' % e)
+        out['astSingleLoad'] = None
+    for k in ('clears', 'swapLast', 'freshDict', 'singleRead', 'cacheEmpty', 'writeUnderLock', 'probeBeforeScan', 'scanInLoop',
+              'returnsLocal', 'keyCoversScan', 'multiviewFirst', 'multiViewScannedLast', 'fallbackFreshDict', 'lockIsLock'):
         if out[k] is None:
             P.append('%s could not be determined' % k)
     out['recognised'] = not P
     summary.clear()
-    summary.update({k: out[k] for k in ('recognised', 'clears', 'swapLast', 'freshDict', 'singleRead', 'cacheEmpty', 'writeUnderLock', 'keyFields', 'scanInputs', 'keyCoversScan', 'multiviewFirst', 'multiViewScannedLast', 'problems')})
+    summary.update({k: out[k] for k in ('recognised', 'clears', 'swapLast', 'freshDict', 'singleRead', 'cacheEmpty', 'writeUnderLock',
+                                        'keyFields', 'scanInputs', 'keyCoversScan', 'multiviewFirst', 'multiViewScannedLast', 'problems')})
     return out
-
-
-def _anc(par, n, stop):
-    while n is not None and n is not stop:
-        n = par.get(n)
-        if n is not None:
-            yield n
 
 
 def _b(v, default):
@@ -330,45 +442,45 @@ def _lstr(s):
 def generate(src_root):
     f = facts(src_root)
     # an undetermined fact is emitted as the BAD value and recognised := false, so nothing can be proved from it
-    L = ['/-! GENERATED by extract/c15.py from src/pyramid/view.py, registry.py, config/views.py, config/__init__.py — do not edit. -/',
+    L = ['/-! GENERATED by extract/c15.py by probing pyramid.view._find_views, pyramid.registry.Registry and a Configurator of the tree under test — do not edit. -/',
          'namespace Pyr.Gen.C15', '',
-         '/-- every construct had the expected shape -/',
+         '/-- every probe ran and every fact was determined -/',
          'def recognised : Bool := ' + _b(f['recognised'], False),
          'def problems : List String := [' + ', '.join(_lstr(p) for p in f['problems']) + ']', '',
-         '/-- `add_view.register` calls `self.registry._clear_view_lookup_cache()` unconditionally -/',
+         '/-- every kind of view registration calls `_clear_view_lookup_cache()` -/',
          'def clears : Bool := ' + _b(f['clears'], False),
-         '/-- … as its last statement, after every `register_view(...)` call, no `return` before it -/',
+         '/-- … as the last thing it does, after every adapter mutation -/',
          'def swapLast : Bool := ' + _b(f['swapLast'], False),
+         '/-- adapter mutations of a first registration -/',
          'def registerViewCalls : Nat := %d' % f['registerViewCalls'],
-         '/-- `register_view`, multiview branch: `registerAdapter(…IMultiView…)` precedes the unregister loop -/',
+         '/-- converting a single view into a multiview registers IMultiView before it unregisters IView/ISecuredView -/',
          'def multiviewFirst : Bool := ' + _b(f['multiviewFirst'], False),
-         '/-- the default `view_types` of `_find_views` end with `IMultiView` -/',
+         '/-- with the default view types `IMultiView` is asked last for every (request type, context type) -/',
          'def multiViewScannedLast : Bool := ' + _b(f['multiViewScannedLast'], False),
-         '/-- `Registry._clear_view_lookup_cache` is `self._view_lookup_cache = {}` (a new dict object) -/',
+         '/-- `Registry._clear_view_lookup_cache` installs a NEW empty dict object and leaves the old one alone -/',
          'def freshDict : Bool := ' + _b(f['freshDict'], False),
          'def fallbackFreshDict : Bool := ' + _b(f['fallbackFreshDict'], False),
          'def lockIsLock : Bool := ' + _b(f['lockIsLock'], False),
-         '/-- `_find_views` reads `registry._view_lookup_cache` once and probes and writes through that local, same key -/',
+         '/-- `_find_views` reads `registry._view_lookup_cache` once per call and probes and writes that dict, same key -/',
          'def singleRead : Bool := ' + _b(f['singleRead'], False),
-         '/-- the write is NOT under `if views:` -/',
+         '/-- a lookup that finds nothing writes to the cache -/',
          'def cacheEmpty : Bool := ' + _b(f['cacheEmpty'], True),
-         '/-- the write is under `with registry._lock:` -/',
+         '/-- the dict write happens with `registry._lock` held -/',
          'def writeUnderLock : Bool := ' + _b(f['writeUnderLock'], False),
          'def probeBeforeScan : Bool := ' + _b(f['probeBeforeScan'], False),
          'def scanInLoop : Bool := ' + _b(f['scanInLoop'], False),
          'def returnsLocal : Bool := ' + _b(f['returnsLocal'], False),
-         '/-- the names making up the cache key tuple -/',
+         '/-- the inputs of `_find_views` the cache key distinguishes -/',
          'def keyFields : List String := [' + ', '.join(_lstr(x) for x in f['keyFields']) + ']',
-         '/-- the parameters of `_find_views` the scan loop depends on -/',
+         '/-- the inputs of `_find_views` the adapter lookups depend on -/',
          'def scanInputs : List String := [' + ', '.join(_lstr(x) for x in f['scanInputs']) + ']',
-         '/-- every scan input is a field of the cache key (or `registry`): the key determines the scan -/',
+         '/-- every scan input is distinguished by the cache key: the key determines the scan -/',
          'def keyCoversScan : Bool := ' + _b(f['keyCoversScan'], False),
          '', 'end Pyr.Gen.C15', '']
     return {'PyramidModel/Gen/C15.lean': '\n'.join(L)}
 
 
 if __name__ == '__main__':
-    import sys, json
+    import json
     root = sys.argv[1] if len(sys.argv) > 1 else '/repo/src'
-    print(json.dumps(facts(root), indent=1))
-    print(generate(root)['PyramidModel/Gen/C15.lean'])
+    print(json.dumps(facts(root), indent=1, default=str))
